@@ -69,24 +69,33 @@ def match_case_invariant(i: int, k: int, pattern: bool, parents: bool) -> bool:
     return tuple(a) == tuple(b)
 
 
-def item_eq(i: int, j: int, ci: int, cj: int) -> bool:
+def mkitem(c, name):
+    # explicit branches: calling a symbolically selected class object makes CrossHair lose the path structure
+    if c == 0:
+        return Item(name, source=None)
+    if c == 1:
+        return ProcedureItem(name, source=None)
+    return ModuleItem(name, source=None)
+
+
+def item_eq(i: int, dj: int, ci: int, cj: int) -> bool:
     """
-    pre: 0 <= i < 13 and 0 <= j < 13 and 0 <= ci < 3 and 0 <= cj < 3
+    pre: 0 <= i < 13 and 0 <= dj < 13 and i + dj < 13 and 0 <= ci < 3 and 0 <= cj < 3
     post: _
     """
-    classes = [Item, ProcedureItem, ModuleItem]
-    a, b = classes[ci](ITEMS[i], source=None), classes[cj](ITEMS[j], source=None)
+    j = i + dj
+    a, b = mkitem(ci, ITEMS[i]), mkitem(cj, ITEMS[j])
     same = ITEMS[i].lower() == ITEMS[j].lower()
-    return (a == b) == same and (b == a) == same and (a != b) != same
+    return (a == b) == same and (b == a) == same and (a != b) != same and (b != a) != same
 
 
-def item_hash(i: int, j: int, ci: int, cj: int) -> bool:
+def item_hash(i: int, dj: int, ci: int, cj: int) -> bool:
     """
-    pre: 0 <= i < 13 and 0 <= j < 13 and 0 <= ci < 3 and 0 <= cj < 3
+    pre: 0 <= i < 13 and 0 <= dj < 13 and i + dj < 13 and 0 <= ci < 3 and 0 <= cj < 3
     post: _
     """
-    classes = [Item, ProcedureItem, ModuleItem]
-    a, b = classes[ci](ITEMS[i], source=None), classes[cj](ITEMS[j], source=None)
+    j = i + dj
+    a, b = mkitem(ci, ITEMS[i]), mkitem(cj, ITEMS[j])
     if a == b and hash(a) != hash(b):
         return False
     # identical spelling always hashes identically, and like the name string (documented str comparison)
@@ -162,6 +171,6 @@ def generate(tier, which):
     from pathlib import Path
     text = Path(__file__).read_text().split('\ndef generate(tier, which):')[0]
     if tier == 'quick':
-        text = text.replace('0 <= ci < 3 and 0 <= cj < 3', '0 <= ci < 3 and 0 <= cj < 3 and ci == i % 3 and cj == (i + j) % 3')
+        text = text.replace('0 <= dj < 13 and i + dj < 13 and 0 <= ci < 3 and 0 <= cj < 3', '0 <= dj < 4 and i + dj < 13 and 0 <= ci < 3 and 0 <= cj < 3')
         text = text.replace('0 <= k2 < 22', '0 <= k2 < 22 and k2 == (k * 7 + 3) % 22 and i % 3 == 0')
     return text, (FUNCS_C21 if which == 'C21' else FUNCS_C23)
